@@ -31,7 +31,7 @@ Theorem C04_size_is_end :
     prog_ok c ops 8 [] = true -> Forall (op_ok c) ops ->
     written c ops = file_hdr (ctype c) ++ flat_map (fun p => enc_rec c (snd p)) (surv c ops)
     /\ w_size (fst (w_run c ops (w_open c))) = lenN (written c ops).
-Proof. exact written_is_concat. Qed.
+Proof. exact (fun c _ Hct => written_is_concat c Hct). Qed.
 Print Assumptions C04_size_is_end.
 
 Theorem C04_skip_is_read_discard :
